@@ -1253,7 +1253,15 @@ def shard(shard_no, nshards, seed, tier):
     total = QUICK_CONFIGS if tier == 'quick' else THOROUGH_CONFIGS
     total = int(os.environ.get('C01_CONFIGS', total))
     n = max(1, total // nshards)
+    stall = os.environ.get('C01_STALL_DUMP')
+    if stall:
+        # diagnostics only: dump all thread stacks of a shard that runs longer than C01_STALL_DUMP seconds
+        import faulthandler
+        f = open('/tmp/c01_stall_%d_%d.txt' % (shard_no, os.getpid()), 'w')
+        faulthandler.dump_traceback_later(float(stall), repeat=False, file=f, exit=False)
     core.hyp_search(cases(), check_case, st_, max_examples=n, seed=seed, max_signatures=3, shrink=False)
+    if stall:
+        faulthandler.cancel_dump_traceback_later()
     return st_
 
 
